@@ -152,7 +152,9 @@ def run_direct(case):
             scores = np.round(scores * 2) / 2
         table = pd.DataFrame({"Label": is_t, "peptide": peps, "score": scores.astype(float)})
         perm = rng.permutation(len(table))
-        table = table.iloc[perm].reset_index(drop=True)
+        table = table.iloc[perm]
+        if case["index"] % 2:
+            table = table.reset_index(drop=True)  # else: the caller's table keeps its (shuffled) index labels
         rows = pd.DataFrame({"peptide": peps, "token": toks, "score": scores.astype(float), "target": is_t}).iloc[perm].reset_index(drop=True)
         extra = dict(order=case["order"], ties=case["ties"], n_peptides=len(table), n_proteins=len(db["targets"]))
         c = core.Call(pp.picked_protein, table.copy(), "Label", "peptide", "score", proteins, int(rng.integers(1 << 30)))
@@ -174,7 +176,7 @@ def run_direct(case):
         # strip invariance: the same table with every decoration removed must give the same groups/scores
         if ok:
             bare = table.copy()
-            bare["peptide"] = rows["token"].values
+            bare["peptide"] = rows["token"].values  # positional: same row order as `table`
             c2 = core.Call(pp.picked_protein, bare, "Label", "peptide", "score", proteins, 1)
             res.count("picked_protein_calls")
             if c2.ok and not case["ties"]:
